@@ -266,10 +266,17 @@ def run_group(cases, seed):
     st = {}
     out = []
     for c in cases:
-        if c["kind"] == "points":
-            out.append(run_points(c))
-        elif c["kind"] == "roundtrip":
-            out.append(run_roundtrip(c, seed, st))
-        else:
-            out.append(run_ph2ph(c, seed, st))
+        try:
+            if c["kind"] == "points":
+                out.append(run_points(c))
+            elif c["kind"] == "roundtrip":
+                out.append(run_roundtrip(c, seed, st))
+            else:
+                out.append(run_ph2ph(c, seed, st))
+        except (np.linalg.LinAlgError, FloatingPointError, ZeroDivisionError, IndexError) as e:
+            # a numerical failure on a valid input (e.g. eigensolver fed NaN because commensurate points are missing) is a lost round trip
+            import traceback
+
+            out.append(dict(ok=False, sig="C06/raised/%s" % c["kind"], nontrivial=True,
+                            msg="%s: %s: %s ... %s" % ({k: v for k, v in c.items() if k != "kind"}, type(e).__name__, str(e)[:100], traceback.format_exc()[-300:])))
     return out
